@@ -90,6 +90,24 @@ Example C14_drain :
     map fargs (sdb s' (p, 1)) = [[TInt 11%Z]; [TInt 12%Z]; [TInt 13%Z]].
 Proof. eexists. eexists. split; [vm_compute; reflexivity|]. repeat split. Qed.
 
+(* non-vacuity, cursors finished in an order that is NOT last-in-first-out (round 3): p = [1, 2]; cursor 0 and then
+   cursor 1 are started; the OLDER cursor 0 runs to its end (resp. is closed) while cursor 1 stays suspended; p(3) is
+   added; cursor 1, resumed, still visits 1, 2 only - and p = [1, 2, 3]: nothing is lost *)
+Example C14_older_cursor_finishes_first :
+  let p := d "p"%string in
+  let f x := TFun p [TInt x] in
+  let pre := [EAssert false (f 1%Z); EAssert false (f 2%Z); EStart 0 (QQuery p [TVar 0]); EStart 1 (QQuery p [TVar 0]);
+              ENext 0; ENext 1] in
+  let post := [EAssert false (f 3%Z); ENext 1; ENext 1; ENext 1] in
+  forall fin, In fin [[ENext 0; ENext 0]; [EClose 0]] ->
+  let evs := pre ++ fin ++ post in
+  exists s' outs, run (match_fact 20) init evs = Some (s', outs) /\
+    outs_of 1 evs outs = [OAns 0 [TInt 1%Z]; OAns 1 [TInt 2%Z]; OEnd; OEnd] /\
+    map fargs (sdb s' (p, 1)) = [[TInt 1%Z]; [TInt 2%Z]; [TInt 3%Z]].
+Proof.
+  intros p f pre post fin [<-|[<-|[]]]; eexists; eexists; (split; [vm_compute; reflexivity|]); repeat split.
+Qed.
+
 (* ---- the same for goals that are suspended INSIDE COMPILED CODE ----
    DbProg.solve: clause bodies run depth first on a shared heap (goals share variables and bindings), the
    database threaded through the search; a goal p(X) or retract(p(X)) is suspended while the rest of the
